@@ -98,7 +98,18 @@ func (s *recStore) checkFlushLast(tag string, start int) {
 // index, height, state and block+supplement of that tip all inside the image.
 //
 //verif:harness prop=C03 tier=quick replay=interp clock=symbolic z3timeout=400 require=flushed-inside-apply,flushed-inside-revert,audited,failed-reorg bounds="main chain of 2 blocks, then a 2..3 block fork from genesis or height 1 whose last block may be invalid (failed reorg rolled back); time.Since symbolic at every shouldFlush"
-func VerifH_C03_commit_points() {
+func VerifH_C03_commit_points() { verifCommitPoints(false) }
+
+// VerifH_C03_size_flush: the same audit with the other flush trigger. The
+// number of bytes buffered since the last commit is an arbitrary value below
+// the size threshold (whatever the earlier history wrote), so the size-based
+// flush may fire at any block boundary of a one-block-deep reorg - and, as the
+// recorder checks, nowhere inside a block.
+//
+//verif:harness prop=C03 tier=quick replay=interp clock=symbolic z3timeout=400 require=flushed-inside-apply,flushed-inside-revert,audited bounds="main chain of 1 block, then a 2 block fork from genesis; DBStore.unflushed symbolic in [0,100e6) before the reorg; time.Since symbolic at every shouldFlush"
+func VerifH_C03_size_flush() { verifCommitPoints(true) }
+
+func verifCommitPoints(size bool) {
 	rdb := &recDB{inner: NewMemDB()}
 	var rs *recStore
 	c := newAbsChainOn(rdb, func(s Store) Store {
@@ -142,18 +153,25 @@ func VerifH_C03_commit_points() {
 		vapi.Reach("audited")
 	}
 	main1 := c.newBlock(0, true)
-	main2 := c.newBlock(main1.Nonce, true)
-	vapi.Assert("build.main", c.m.AddBlocks([]types.Block{main1, main2}) == nil)
-	fp := uint64(0)
-	if vapi.Bool("fork-at-1") {
-		fp = main1.Nonce
+	fp, n := uint64(0), 2
+	if size {
+		vapi.Assert("build.main", c.m.AddBlocks([]types.Block{main1}) == nil)
+		u := vapi.U32("unflushed")
+		vapi.Assume(u < 100e6)
+		rs.DBStore.unflushed = int(u)
+	} else {
+		main2 := c.newBlock(main1.Nonce, true)
+		vapi.Assert("build.main", c.m.AddBlocks([]types.Block{main1, main2}) == nil)
+		if vapi.Bool("fork-at-1") {
+			fp = main1.Nonce
+		}
+		n = vapi.Int("fork-len", 2, 3)
 	}
-	n := vapi.Int("fork-len", 2, 3)
 	var fork []types.Block
 	p := fp
 	for i := 0; i < n; i++ {
 		b := c.newBlock(p, true)
-		if i == n-1 {
+		if i == n-1 && !size {
 			absW.bodyBad[b.Nonce] = vapi.Bool("last-invalid")
 		}
 		fork = append(fork, b)
